@@ -106,8 +106,8 @@ def evaluate_sites(ctx, F, reach, parent, table):
         groups.setdefault((s["fn"].path, s["kind"], what), []).append(s)
     for k, v in auto_kinds.items():
         ctx.ok("R-REACH", "auto:" + k, "%d sites discharged structurally (%s)" % (v, k))
-    ctx.analysed["prod"]["sites_total"] = len(sites)
-    ctx.analysed["prod"]["sites_auto_discharged"] = n_auto
+    ctx.analysed.setdefault("prod", {})["sites_total"] = len(sites)
+    ctx.analysed.setdefault("prod", {})["sites_auto_discharged"] = n_auto
     by_key = {}
     for r in rows:
         by_key[(r["fn"], r["kind"], r["what"])] = r
@@ -203,8 +203,8 @@ def check(ctx):
 
     reach, parent, roots, extra = census.reach_set(F)
     ctx.analysed.setdefault("prod", {})["entry_points"] = [r.path for r in roots]
-    ctx.analysed["prod"]["callback_roots"] = len(extra)
-    ctx.analysed["prod"]["reachable_functions"] = len(reach)
+    ctx.analysed.setdefault("prod", {})["callback_roots"] = len(extra)
+    ctx.analysed.setdefault("prod", {})["reachable_functions"] = len(reach)
     ctx.floor("R-REACH", "reachable functions", len(reach), 3000)
     table = load_table()
 
